@@ -605,7 +605,12 @@ impl FunctionCompiler<'_> {
 
                     dest.write_all(res, *dest_ty, self.module, &mut self.builder);
                 } else {
-                    self.compile_and_cast_into_memory(assign_body.value, *dest_ty, dest);
+                    // the new value has to be finished before the old one gets overwritten,
+                    // it might still be read by the value (`s = S.{ a = s.b, b = s.a }`).
+                    // so unlike a definition, an aggregate literal isn't built in place here.
+                    let value = self.compile_and_cast(assign_body.value, *dest_ty);
+
+                    dest.write_all(value, *dest_ty, self.module, &mut self.builder);
                 }
             }
             hir::Stmt::Break {
